@@ -45,3 +45,30 @@ func TestTimelyBoundExplore(t *testing.T) {
 	}
 	t.Logf("%v", hist)
 }
+
+func TestTimelyEagerExplore(t *testing.T) {
+	QuietLogs(t)
+	viol := 0
+	hist := map[int64]int{}
+	for i := 0; i < 60000; i++ {
+		res := RunTimelyCaseBound(rand.New(rand.NewSource(int64(i)*91+7)), i, 1)
+		if res.Meta.Timer != "eager" {
+			continue
+		}
+		mx := int64(0)
+		for _, d := range res.RoundsAfterFault {
+			if d > mx {
+				mx = d
+			}
+		}
+		if len(res.Findings) > 0 {
+			viol++
+			if viol <= 3 {
+				t.Logf("case %d: %s | %+v", i, res.Findings[0].What, res.Meta.Faults[0])
+			}
+			mx = 999
+		}
+		hist[mx]++
+	}
+	t.Logf("eager: %v violations=%d", hist, viol)
+}
